@@ -52,6 +52,30 @@ func schedEnqueueQueuedOnly(c *Ctx) *RuleResult {
 				}
 			}
 		}
+		if !okG && !u.Fn.Exported() {
+			// a helper that enqueues for its caller: judge the places it is called from
+			sites := CallsTo(units, u.Fn)
+			all := len(sites) > 0
+			for _, s := range sites {
+				sg := NewFuncCFG(s.Unit.Info(), s.Unit.Decl.Body)
+				okS := false
+				for _, rc := range CallsTo([]*FuncUnit{s.Unit}, reg) {
+					if sg.Dominates(rc.Node, s.Node) {
+						okS = true
+					}
+				}
+				for _, g := range flattenGuards(GuardsOf(s.Unit.Info(), s.Unit.Decl.Body, s.Node)) {
+					be, ok := ast.Unparen(g.Cond).(*ast.BinaryExpr)
+					if ok && g.Pos && be.Op == token.EQL && strings.HasSuffix(exprStr(be.Y), "ExecutionStage_QUEUED") {
+						okS = true
+					}
+				}
+				if !okS {
+					all = false
+				}
+			}
+			okG = all
+		}
 		if okG {
 			r.ok(construct, posOf(p, cs.Node), "only for a task in the QUEUED stage")
 		} else {
@@ -91,16 +115,7 @@ func schedNoChangeIdentity(c *Ctx) *RuleResult {
 				return true
 			}
 			construct := constructOf(u, "carry-on response")
-			okG := false
-			for _, g := range flattenGuards(GuardsOf(info, u.Decl.Body, cl)) {
-				gc, ok := ast.Unparen(g.Cond).(*ast.CallExpr)
-				if !ok || !g.Pos {
-					continue
-				}
-				if pred := calleeOf(info, gc); pred != nil && p.Decl(pred) != nil && digestPredicateOK(p, pred) == "" {
-					okG = true
-				}
-			}
+			okG, _, _ := digestEqualityGuarded(p, u, flattenGuards(GuardsOf(info, u.Decl.Body, cl)))
 			if okG {
 				r.ok(construct, posOf(p, cl), "only when the reported digest equals the assigned task's")
 			} else {
@@ -616,6 +631,12 @@ func c11Init(c *Ctx) *RuleResult {
 			r.ok(constructOf(w.Unit, "unsuspensionStart initialised"), posOf(p, kv), exprStr(kv.Value))
 		}
 	}
+	for _, w := range FieldWrites(p.UnitsIn("pkg/clock"), f, false) {
+		if w.Unit.Decl.Recv == nil && w.RHS != nil {
+			n++
+			r.ok(constructOf(w.Unit, "unsuspensionStart initialised"), posOf(p, w.Node), "assigned in the constructor")
+		}
+	}
 	if n == 0 {
 		r.bad(c.Prop, "clock.SuspendableClock|unsuspensionStart initialised", "-", "no constructor initialises unsuspensionStart: until the first Suspend/Resume cycle no run time is counted, so a command's timeout only fires at timeout + maximum compensation and its reported duration is zero")
 	}
@@ -839,6 +860,25 @@ func c18OpenAccounted(c *Ctx) *RuleResult {
 	r := &RuleResult{Rule: "C18.open-accounted", Floor: 4,
 		Doc: "the server closes each underlying file exactly as often as it opened it: after a successful VirtualOpenChild / VirtualOpenSelf in the NFS programs, every path either hands the open over (open-owner file upgrade, a new pool entry, a returned cleanup closure that closes it) or schedules the leaf for closing -- also on the error returns that follow the open"}
 	p := c.P
+	// helpers that take a leaf parameter and hand it over themselves
+	accounting := mayDo(p.UnitsIn(nfsPkg), func(x *FuncUnit, n ast.Node) bool {
+		call, ok := n.(*ast.CallExpr)
+		if !ok {
+			return false
+		}
+		sel, ok := ast.Unparen(call.Fun).(*ast.SelectorExpr)
+		if !ok || (sel.Sel.Name != "upgrade" && sel.Sel.Name != "Open" && sel.Sel.Name != "add") {
+			return false
+		}
+		for _, a := range call.Args {
+			if id, ok := ast.Unparen(a).(*ast.Ident); ok {
+				if v, ok := x.Info().Uses[id].(*types.Var); ok && isParamOf(x, v) && namedIs(v.Type(), modPath+"/"+virtualPkg, "Leaf") {
+					return true
+				}
+			}
+		}
+		return false
+	})
 	for _, u := range p.UnitsIn(nfsPkg) {
 		info := u.Info()
 		spec := &OblSpec{Name: "opened", Min: 1, Max: 99,
@@ -873,6 +913,13 @@ func c18OpenAccounted(c *Ctx) *RuleResult {
 					sel, ok := ast.Unparen(x.Fun).(*ast.SelectorExpr)
 					if !ok {
 						return 0
+					}
+					if fn := calleeOf(info, x); fn != nil && accounting[fn] {
+						for _, a := range x.Args {
+							if exprStr(a) == key {
+								return 1
+							}
+						}
 					}
 					switch sel.Sel.Name {
 					case "upgrade", "Open", "add":
@@ -981,11 +1028,30 @@ func c19BadSeqidNotCached(c *Ctx) *RuleResult {
 	p := c.P
 	u := p.Unit(nfsPkg, "transactionShouldComplete")
 	required := []string{"NFS4ERR_STALE_CLIENTID", "NFS4ERR_STALE_STATEID", "NFS4ERR_BAD_STATEID", "NFS4ERR_BAD_SEQID", "NFS4ERR_BADXDR", "NFS4ERR_RESOURCE", "NFS4ERR_NOFILEHANDLE"}
+	// the codes for which the predicate is false: `st != X && ...` conjuncts, or the cases of a
+	// switch whose body returns false
 	excluded := map[string]bool{}
 	ast.Inspect(u.Decl.Body, func(n ast.Node) bool {
-		if be, ok := n.(*ast.BinaryExpr); ok && be.Op == token.NEQ {
-			if sel, ok := ast.Unparen(be.Y).(*ast.SelectorExpr); ok {
-				excluded[sel.Sel.Name] = true
+		switch x := n.(type) {
+		case *ast.BinaryExpr:
+			if x.Op == token.NEQ {
+				if sel, ok := ast.Unparen(x.Y).(*ast.SelectorExpr); ok {
+					excluded[sel.Sel.Name] = true
+				}
+			}
+		case *ast.CaseClause:
+			returnsFalse := false
+			for _, s := range x.Body {
+				if ret, ok := s.(*ast.ReturnStmt); ok && len(ret.Results) == 1 && exprStr(ret.Results[0]) == "false" {
+					returnsFalse = true
+				}
+			}
+			if returnsFalse {
+				for _, e := range x.List {
+					if sel, ok := ast.Unparen(e).(*ast.SelectorExpr); ok {
+						excluded[sel.Sel.Name] = true
+					}
+				}
 			}
 		}
 		return true
